@@ -109,7 +109,7 @@ Definition delta := (name * name * rowid * val * val)%type.
 
 Inductive sumcall :=
 | SAddChanges (t c : name) (changes : list (rowid * val * val))
-| SAddRecords (t : name) | SRemoveRecords (t : name)
+| SAddRecords (t : name) (rows : list rowid) | SRemoveRecords (t : name) (rows : list rowid)
 | SAddColumn (t c : name) | SRemoveColumn (t c : name) | SRenameColumn (t c c' : name)
 | SAddTable (t : name) | SRemoveTable (t : name) | SRenameTable (t t' : name).
 
@@ -274,7 +274,7 @@ Section Steps.
         | None => [MFail]
         | Some tb =>
             if bool_decide (Exists (fun r => r ∈ t_rows tb) rows) then [MFail]
-            else [MUndo (BulkRemoveRecord t rows); MSum (SAddRecords t)] ++ add_records_steps tb t rows vals false
+            else [MUndo (BulkRemoveRecord t rows); MSum (SAddRecords t rows)] ++ add_records_steps tb t rows vals false
         end
     | BulkRemoveRecord t rows =>
         match d_tables d !! t with
@@ -287,7 +287,7 @@ Section Steps.
               let cs := cols_in_order t tb in
               map (MDelRow t) rows'
               ++ concat (map (cell_steps t rows') (unset_values tb cs rows'))
-              ++ [MUndo (remove_undo t tb cs rows'); MSum (SRemoveRecords t)]
+              ++ [MUndo (remove_undo t tb cs rows'); MSum (SRemoveRecords t rows')]
             end
         end
     | BulkUpdateRecord t rows vals =>
@@ -306,7 +306,7 @@ Section Steps.
                                                         (t_cols tb !! c) = true) cs in
             let old_rows := rows_list tb in
             [MUndo (ReplaceTableData t old_rows (col_values tb data_cs old_rows));
-             MSum (SRemoveRecords t); MSum (SAddRecords t); MClearRows t]
+             MSum (SRemoveRecords t old_rows); MSum (SAddRecords t rows); MClearRows t]
             ++ map (MClearCol t) cs
             ++ add_records_steps tb t rows vals true
         end
@@ -429,9 +429,17 @@ Section Steps.
         match cells with
         | [] => []
         | _ =>
-          match d_tables d !! t ≫= fun tb => t_cols tb !! c with
-          | Some col => map (fun rv => MSetCell t c rv.1 rv.2) cells
-                        ++ [MSum (SAddChanges t c (map (fun rv => (rv.1, cget col rv.1, rv.2)) cells))]
+          match d_tables d !! t with
+          | Some tb =>
+              match t_cols tb !! c with
+              | Some col =>
+                  (* only cells of existing rows are ever evaluated (_recompute_step skips absent rows) *)
+                  if bool_decide (Forall (fun rv => rv.1 ∈ t_rows tb) cells)
+                  then map (fun rv => MSetCell t c rv.1 rv.2) cells
+                       ++ [MSum (SAddChanges t c (map (fun rv => (rv.1, cget col rv.1, rv.2)) cells))]
+                  else [MFail]
+              | None => [MFail]
+              end
           | None => [MFail]
           end
         end
@@ -524,7 +532,7 @@ Definition action_sig (a : action) : list Z :=
 
 Definition sum_sig (s : sumcall) : list Z :=
   match s with
-  | SAddChanges t c _ => [1; t; c] | SAddRecords t => [2; t] | SRemoveRecords t => [3; t]
+  | SAddChanges t c _ => [1; t; c] | SAddRecords t _ => [2; t] | SRemoveRecords t _ => [3; t]
   | SAddColumn t c => [4; t; c] | SRemoveColumn t c => [5; t; c] | SRenameColumn t c c' => [6; t; c; c']
   | SAddTable t => [7; t] | SRemoveTable t => [8; t] | SRenameTable t t' => [9; t; t']
   end.
@@ -596,3 +604,155 @@ Definition rollback_raises (ord : name -> list name) (d : doc) (es : list event)
   | Finished _ => false
   end.
 
+
+(* ---------------------------------------------------------------------------------------------------------- *)
+(* ActionSummary (action_summary.py) as a function of the summary calls made so far, and the flush that
+   apply_user_actions performs before reverting a failed bundle (since f80d48c): the pending column deltas become
+   undo actions -- appended for rows that still exist (replayed first, under the current names), inserted at the
+   FRONT under the original names for rows / columns / tables that are gone (replayed last). *)
+Definition lname := (bool * name)%type.              (* (true, n) is the defunct name "-n" *)
+Definition root (n : lname) : name := n.2.
+Definition is_defunct (n : lname) : bool := n.1.
+
+(* LabelRenames._new_to_old: latest name -> original name (None: created) *)
+Definition renames := list (lname * option name).
+Fixpoint assoc_get {K V} `{EqDecision K} (k : K) (l : list (K * V)) : option V :=
+  match l with [] => None | (k', v) :: r => if decide (k' = k) then Some v else assoc_get k r end.
+Fixpoint assoc_del {K V} `{EqDecision K} (k : K) (l : list (K * V)) : list (K * V) :=
+  match l with [] => [] | (k', v) :: r => if decide (k' = k) then assoc_del k r else (k', v) :: assoc_del k r end.
+Definition assoc_set {K V} `{EqDecision K} (k : K) (v : V) (l : list (K * V)) : list (K * V) :=
+  assoc_del k l ++ [(k, v)].
+
+(* add_rename(before, after); before = None for an addition *)
+Definition add_rename (before : option lname) (after : lname) (m : renames) : renames :=
+  match before with
+  | None => assoc_set after None m
+  | Some b => let original := default (Some (root b)) (assoc_get b m) in assoc_set after original (assoc_del b m)
+  end.
+Definition rn_is_created (n : lname) (m : renames) : bool :=
+  match assoc_get n m with Some None => true | _ => false end.
+Definition rn_original (n : lname) (m : renames) : name :=
+  match assoc_get n m with Some (Some o) => o | _ => root n end.
+
+Record table_delta := TableDelta {
+  td_before : gmap rowid bool; td_after : gmap rowid bool;
+  td_renames : renames;
+  td_deltas : list (lname * gmap rowid (val * val)) }.
+Definition td_empty : table_delta := TableDelta ∅ ∅ [] [].
+
+Record summary := Summary { sm_renames : renames; sm_tables : list (lname * table_delta) }.
+Definition sm_empty : summary := Summary [] [].
+
+Definition for_table (t : lname) (sm : summary) : table_delta := default td_empty (assoc_get t (sm_tables sm)).
+Definition put_table (t : lname) (td : table_delta) (sm : summary) : summary :=
+  {| sm_renames := sm_renames sm;
+     sm_tables := match assoc_get t (sm_tables sm) with
+                  | Some _ => map (fun kv => if decide (kv.1 = t) then (t, td) else kv) (sm_tables sm)
+                  | None => sm_tables sm ++ [(t, td)] end |}.
+
+Definition td_add_changes (c : lname) (changes : list (rowid * val * val)) (td : table_delta) : table_delta :=
+  let m0 := default ∅ (assoc_get c (td_deltas td)) in
+  let m := foldl (fun m ch => <[ch.1.1 := (from_option fst ch.1.2 (m !! ch.1.1), ch.2)]> m) m0 changes in
+  {| td_before := td_before td; td_after := td_after td; td_renames := td_renames td;
+     td_deltas := match assoc_get c (td_deltas td) with
+                  | Some _ => map (fun kv => if decide (kv.1 = c) then (c, m) else kv) (td_deltas td)
+                  | None => td_deltas td ++ [(c, m)] end |}.
+
+Definition td_rename_column (old : option lname) (new : lname) (td : table_delta) : table_delta :=
+  {| td_before := td_before td; td_after := td_after td;
+     td_renames := add_rename old new (td_renames td);
+     td_deltas := match old ≫= fun o => assoc_get o (td_deltas td) with
+                  | Some m => assoc_set new m (assoc_del (default new old) (td_deltas td))
+                  | None => td_deltas td end |}.
+
+Definition sm_step (sm : summary) (s : sumcall) : summary :=
+  let plain (n : name) : lname := (false, n) in
+  match s with
+  | SAddChanges t c ch => put_table (plain t) (td_add_changes (plain c) ch (for_table (plain t) sm)) sm
+  | SAddRecords t rows =>
+      let td := for_table (plain t) sm in
+      put_table (plain t)
+        {| td_before := foldl (fun m r => match m !! r with Some _ => m | None => <[r := false]> m end) (td_before td) rows;
+           td_after := foldl (fun m r => <[r := true]> m) (td_after td) rows;
+           td_renames := td_renames td; td_deltas := td_deltas td |} sm
+  | SRemoveRecords t rows =>
+      let td := for_table (plain t) sm in
+      put_table (plain t)
+        {| td_before := foldl (fun m r => match m !! r with Some _ => m | None => <[r := true]> m end) (td_before td) rows;
+           td_after := foldl (fun m r => <[r := false]> m) (td_after td) rows;
+           td_renames := td_renames td; td_deltas := td_deltas td |} sm
+  | SAddColumn t c => put_table (plain t) (td_rename_column None (plain c) (for_table (plain t) sm)) sm
+  | SRemoveColumn t c => put_table (plain t) (td_rename_column (Some (plain c)) (true, c) (for_table (plain t) sm)) sm
+  | SRenameColumn t c c' => put_table (plain t) (td_rename_column (Some (plain c)) (plain c') (for_table (plain t) sm)) sm
+  | SAddTable t => {| sm_renames := add_rename None (plain t) (sm_renames sm); sm_tables := sm_tables sm |}
+  | SRemoveTable t =>
+      {| sm_renames := add_rename (Some (plain t)) (true, t) (sm_renames sm);
+         sm_tables := match assoc_get (plain t) (sm_tables sm) with
+                      | Some td => assoc_set (true, t) td (assoc_del (plain t) (sm_tables sm))
+                      | None => sm_tables sm end |}
+  | SRenameTable t t' =>
+      {| sm_renames := add_rename (Some (plain t)) (plain t') (sm_renames sm);
+         sm_tables := match assoc_get (plain t) (sm_tables sm) with
+                      | Some td => assoc_set (plain t') td (assoc_del (plain t) (sm_tables sm))
+                      | None => sm_tables sm end |}
+  end.
+
+Definition summary_of (log : list sumcall) : summary := foldl sm_step sm_empty log.
+
+(* _changes_to_actions for one column: (front insert, appended) undo actions *)
+Definition changes_to_undo (sm : summary) (t : lname) (td : table_delta) (c : lname) (m : gmap rowid (val * val))
+  : list action * list action :=
+  let full := filter (fun r => from_option (fun ba => bool_decide (ba.1 ≠ ba.2)) false (m !! r) = true)
+                     (merge_sort Z.le (map fst (map_to_list m))) in
+  let defunct := is_defunct t || is_defunct c in
+  let orig_t := rn_original t (sm_renames sm) in
+  let orig_c := rn_original c (td_renames td) in
+  let t' := root t in
+  let c' := root c in
+  (* the lookups after root_name() use the plain names *)
+  let td' := assoc_get (false, t') (sm_tables sm) in
+  let created := rn_is_created (false, t') (sm_renames sm)
+                 || from_option (fun x => rn_is_created (false, c') (td_renames x)) false td' in
+  if created && negb defunct then ([], [])
+  else
+    let befores rs := map (fun r => from_option fst 0 (m !! r)) rs in
+    let rows_before := filter (fun r => from_option (fun x => td_before x !! r) None td' ≠ Some false) full in
+    let preserved := if defunct then []
+                     else filter (fun r => from_option (fun x => td_after x !! r) None td' ≠ Some false) rows_before in
+    let gone := filter (fun r => r ∉ preserved) rows_before in
+    (match gone with [] => [] | _ => [BulkUpdateRecord orig_t gone [(orig_c, befores gone)]] end,
+     match preserved with [] => [] | _ => [BulkUpdateRecord t' preserved [(c', befores preserved)]] end).
+
+(* convert_deltas_to_actions: every table, every column; front inserts pile up in reverse *)
+Definition flush_undo_of (sm : summary) : list action * list action :=
+  foldl (fun acc ttd =>
+           foldl (fun acc cm => let fb := changes_to_undo sm ttd.1 ttd.2 cm.1 cm.2 in (fb.1 ++ acc.1, acc.2 ++ fb.2))
+                 acc (td_deltas ttd.2))
+        ([], []) (sm_tables sm).
+Definition flush_undo (log : list sumcall) : list action * list action := flush_undo_of (summary_of log).
+
+Definition sum_log (steps : list mstep) : list sumcall :=
+  omap (fun m => match m with MSum s => Some s | _ => None end) steps.
+
+(* all micro-steps executed before the crash *)
+Fixpoint run_log (ord : name -> list name) (st : mstate) (es : list event) (k : nat) : list mstep :=
+  match es with
+  | [] => []
+  | e :: es' =>
+      match exec_upto st (event_steps ord (ms_doc st) e) k [] with
+      | (_, done, None) => done
+      | (st', done, Some k') => done ++ run_log ord st' es' k'
+      end
+  end.
+
+(* the except branch of apply_user_actions: [schema restore of the failing doc action,] flush, then revert *)
+Definition rollback_flush (ord : name -> list name) (st : mstate) (log : list sumcall) : option doc :=
+  let fb := flush_undo log in
+  replay ord (restore_schema st) (rev (fb.1 ++ ms_undo st ++ fb.2)).
+
+Definition leaves_trace_flush (ord : name -> list name) (d : doc) (es : list event) (k : nat) : bool :=
+  match run_until_crash ord (init_state d []) es k with
+  | Crashed st _ _ =>
+      negb (bool_decide (rollback_flush ord st (sum_log (run_log ord (init_state d []) es k)) = Some d))
+  | Finished _ => false
+  end.
